@@ -17,7 +17,7 @@ RULE = ("full product over pairs of operations (ids x paths x tag layout) and pa
         "collision alphabets; deviation-bounded builder (d<=2 quick, d<=3 thorough) over 3 operations / 3 schemas with broken "
         "units, unsupported or broken responses and request media types, dependants of broken schemas at distance 1 and 2; "
         "oracle = census: every operation is served by its own generated module (found by calling it) or named by a diagnostic, "
-        "every object/enum schema has its own class or is named by a diagnostic; non-trivial = generated and census taken; every ordered selection of 1-3 request media types in one body; path items with shared (good / 5 broken) parameters x 4 methods each inheriting / re-declaring / absent; every builder document also under generate_all_tags; operations with an explicit empty tag list or with two tags; typed responses next to content-less statuses, request bodies on all eight methods (inline / by reference), broken-root dependant chains no operation mentions x related names x edge kinds; the census matches whole name tokens")
+        "every object/enum schema has its own class or is named by a diagnostic; non-trivial = generated and census taken; every ordered selection of 1-3 request media types in one body; path items with shared (good / 5 broken) parameters x 4 methods each inheriting / re-declaring / absent; every builder document also under generate_all_tags; operations with an explicit empty tag list or with two tags; typed responses next to content-less statuses, request bodies on all eight methods (inline / by reference), broken-root dependant chains no operation mentions x related names x edge kinds; the census matches whole name tokens; inline objects / enumerations nested in inline objects whose derived class names coincide (5 places x 6 naming routes x 2 kinds): each keeps a class of its own or is diagnosed")
 FLOOR = 0.5
 ASSUMPTIONS = ["a diagnostic 'names' an item when the method and path (or the schema name) occur in its header+detail+data",
                "which class belongs to a component is read from the generator's own claim and then verified on the tree"]
@@ -306,7 +306,77 @@ def _dependant_chain_cases():
                            "payload": {"doc": gen.base_doc(comps, paths=paths), "key": f"dependant-chain/{nname}"}}
 
 
+# inline schemas nested in inline schemas whose derived class names coincide: every inline object / enum is a document item of its own
+INLINE_WHERE = ("response", "body", "query-parameter", "component-property", "array-items")
+INLINE_ROUTES = {  # how the inner schema comes to derive the outer one's class name: (inner property name, title of outer, title of inner, options)
+    "empty-name:_": ("_", None, None, {}), "empty-name:-": ("-", None, None, {}), "empty-name:$": ("$", None, None, {}),
+    "same-titles/no-path-prefix": ("child", "Tree Node", "TreeNode", {"use_path_prefixes_for_title_model_names": False}),
+    "same-titles/default": ("child", "Tree Node", "TreeNode", {}),
+    "distinct-names": ("child", None, None, {}),
+}
+
+
+def _inline_cases():
+    for where in INLINE_WHERE:
+        for route in INLINE_ROUTES:
+            for inner_kind in ("object", "enum"):
+                yield {"labels": [f"inline-nesting={where}", f"route={route}", f"inner={inner_kind}"],
+                       "payload": {"mode": "inline-census", "where": where, "route": route, "inner": inner_kind}}
+
+
+def _run_inline(p):
+    import ast
+    pname, t_outer, t_inner, options = INLINE_ROUTES[p["route"]]
+    inner = {"type": "object", "properties": {"mk_inner": {"type": "string"}}} if p["inner"] == "object" else {"type": "string", "enum": ["mk_inner_a", "mk_inner_b"]}
+    outer = {"type": "object", "properties": {"mk_outer": {"type": "integer"}, pname: inner}}
+    if t_outer:
+        outer["title"], inner["title"] = t_outer, t_inner
+    ok = {"200": {"description": "d"}}
+    comps, paths = None, {}
+    where = p["where"]
+    if where == "response":
+        paths = {"/x": {"get": {"operationId": "theOp", "responses": {"200": {"description": "d", "content": {"application/json": {"schema": outer}}}}}}}
+    elif where == "body":
+        paths = {"/x": {"post": {"operationId": "theOp", "requestBody": {"required": True, "content": {"application/json": {"schema": outer}}}, "responses": ok}}}
+    elif where == "query-parameter":
+        paths = {"/x": {"get": {"operationId": "theOp", "parameters": [{"name": "filter", "in": "query", "schema": outer}], "responses": ok}}}
+    elif where == "component-property":
+        comps = {"Holder": {"type": "object", "properties": {"held": outer}}}
+    else:
+        comps = {"Holder": {"type": "object", "properties": {"rows": {"type": "array", "items": outer}}}}
+    res = gen.generate(gen.base_doc(comps, paths=paths), **options)
+    if res.crash:
+        return {"skipped_crash": True, "outcome": f"crash:{res.crash['type']}@{res.crash['where']}", "nontrivial": False}
+    if res.rejected:
+        return {"outcome": "rejected", "nontrivial": False}
+    viol = []
+    key = f"inline-census/{where}/{p['route'].split(':')[0]}/{p['inner']}"
+    if not res.diags:
+        found = {"mk_outer": False, "mk_inner": False}
+        for k, b in res.pkg_tree().items():
+            if not k.startswith("models/") or k.endswith("__init__.py"):
+                continue
+            for node in ast.parse(b).body:
+                if not isinstance(node, ast.ClassDef):
+                    continue
+                names = {st.target.id for st in node.body if isinstance(st, ast.AnnAssign) and isinstance(st.target, ast.Name)}
+                consts = {st.value.value for st in node.body if isinstance(st, ast.Assign) and isinstance(st.value, ast.Constant)}
+                if "mk_outer" in names:
+                    found["mk_outer"] = True
+                if "mk_inner" in names or "mk_inner_a" in consts:
+                    found["mk_inner"] = True
+            if b"mk_inner_a" in b and b"Literal[" in b:
+                found["mk_inner"] = True
+        missing = [n for n, ok_ in found.items() if not ok_]
+        if missing:
+            viol.append({"oracle": "inline-schema-lost", "site": where, "key": key,
+                         "detail": f"inline {'object' if p['inner'] == 'object' else 'enumeration'} under property {pname!r} (route {p['route']}): no generated class holds {missing} and there is no diagnostic; "
+                                   f"model modules: {sorted(k for k in res.pkg_tree() if k.startswith('models/'))}"})
+    return {"violations": viol, "outcome": "ok" if not viol else "viol:inline-schema-lost", "nontrivial": True, "steps": 1}
+
+
 def cases(tier):
+    yield from _inline_cases()
     yield from _dependant_chain_cases()
     yield from _op_pairs()
     yield from _schema_pairs()
@@ -363,6 +433,8 @@ def _tmpl_regex(path):
 
 
 def run_case(p):
+    if p.get("mode") == "inline-census":
+        return _run_inline(p)
     doc = p["doc"]
     res = gen.generate(doc, **p.get("options", {}))
     if res.crash:
